@@ -398,3 +398,106 @@ def program(rnd: random.Random, nstmts: T.Optional[int] = None, err_rate: T.Opti
     g = Gen(rnd, err_rate if err_rate is not None else rnd.choice([0.0, 0.0, 0.02, 0.05, 0.12]))
     n = nstmts if nstmts is not None else rnd.randint(2, 9)
     return g.block(0, n)
+
+
+# ---------------------------------------------------------------------------
+# build-file flavoured statements (for the formatter / rewriter checks: parseable, not necessarily evaluable)
+
+FILES = ['a.c', 'b.c', 'main.c', 'src/x.c', 'src/y.c', 'lib/util.c', 'z10.c', 'z9.c', 'Z.c', 'dir/sub/file.cpp', "we'ird.c".replace("'", '')]
+FUNCS = ['executable', 'library', 'static_library', 'custom_target', 'dependency', 'configure_file', 'test', 'message']
+KWS = ['sources', 'dependencies', 'install', 'include_directories', 'c_args', 'link_with', 'version', 'required', 'output', 'command']
+
+
+class BuildGen(Gen):
+    def value(self, d: int = 0) -> T.List[Tok]:
+        r = self.r
+        c = r.random()
+        if d > 2 or c < 0.35:
+            return self.strlit(r.choice(FILES + ['-DFOO=1', 'name', '1.2.3', '@INPUT@', "it\\'s", 'a\\\\b'])) if r.random() < 0.8 else self.atom(r.choice(TYPES))
+        if c < 0.5:
+            out = [S('lbracket')]
+            for i in range(r.choice([0, 1, 2, 3, 5, 8])):
+                if i:
+                    out.append(S('comma'))
+                out += self.value(d + 1)
+            if len(out) > 1 and r.random() < 0.4:
+                out.append(S('comma'))
+            return out + [S('rbracket')]
+        if c < 0.6:
+            return self.files_call()
+        if c < 0.7:
+            return self.fcall(d + 1)
+        if c < 0.78:
+            return [ident(r.choice(['meson', 'cc', 'dep', 'conf'])), S('dot')] + self.call(r.choice(['get_compiler', 'found', 'version', 'get_variable', 'set']), [self.value(d + 1) for _ in range(r.choice([0, 1, 2]))])
+        if c < 0.86:
+            return self.expr(r.choice(['bool', 'int', 'str']), 2)
+        if c < 0.93:
+            return self.atom('dict')
+        return [ident(r.choice(['src', 'deps', 'inc', 'x']))]
+
+    def files_call(self) -> T.List[Tok]:
+        r = self.r
+        n = r.choice([0, 1, 2, 3, 4, 6])
+        names = [r.choice(FILES) for _ in range(n)]
+        items: T.List[Tok] = []
+        for i, nm in enumerate(names):
+            if i:
+                items.append(S('comma'))
+            items += [string(nm, r.choice(['s', 's', 's', 'ms']))] if r.random() < 0.95 else [ident('x')]
+        if items and r.random() < 0.3:
+            items.append(S('comma'))
+        if r.random() < 0.4:
+            items = [S('lbracket')] + items + [S('rbracket')]
+        return [ident('files'), S('lparen')] + items + [S('rparen')]
+
+    def fcall(self, d: int = 0) -> T.List[Tok]:
+        r = self.r
+        out = [ident(r.choice(FUNCS)), S('lparen')]
+        parts: T.List[T.List[Tok]] = [self.value(d + 1) for _ in range(r.choice([0, 1, 1, 2, 4]))]
+        for kw in r.sample(KWS, r.choice([0, 0, 1, 2, 4])):
+            parts.append([ident(kw), S('colon')] + self.value(d + 1))
+        for i, p in enumerate(parts):
+            if i:
+                out.append(S('comma'))
+            out += p
+        if parts and r.random() < 0.3:
+            out.append(S('comma'))
+        return out + [S('rparen')]
+
+    def stmt(self, depth: int) -> T.List[Tok]:
+        r = self.r
+        c = r.random()
+        if c < 0.3:
+            return self.fcall()
+        if c < 0.5:
+            name = r.choice(['src', 'deps', 'exe', 'lib', 'x'])
+            return [ident(name), S(r.choice(['assign', 'assign', 'plusassign']))] + self.value()
+        return super().stmt(depth)
+
+
+def build_program(rnd: random.Random, nstmts: T.Optional[int] = None) -> T.List[Tok]:
+    g = BuildGen(rnd, 0.0)
+    n = nstmts if nstmts is not None else rnd.randint(1, 8)
+    return g.block(0, n)
+
+
+def decorate_nested(tokens: T.List[Tok], rnd: random.Random, rate: float = 0.3) -> T.List[Tok]:
+    """Insert newlines inside brackets (after openers and commas, before closers): legal layout trivia."""
+    out: T.List[Tok] = []
+    depth = 0
+    for i, t in enumerate(tokens):
+        k = t['t']
+        if k in ('rparen', 'rbracket', 'rcurl'):
+            if depth > 0 and rnd.random() < rate:
+                out.append(S('eol'))
+            depth -= 1
+        out.append(t)
+        if k in ('lparen', 'lbracket', 'lcurl'):
+            depth += 1
+            if rnd.random() < rate:
+                out.append(S('eol'))
+        elif k == 'comma' and depth > 0 and rnd.random() < rate * 1.5:
+            out.append(S('eol'))
+            if rnd.random() < 0.2:
+                out.append(S('eol'))
+    return out
